@@ -42,9 +42,13 @@ func (w *World) preloadIDs(st *Step) []atree.SlabID {
 		}
 	}
 	if st.Keep {
-		// some ids that do not exist
+		// some ids that do not exist, at PRNG-chosen positions of the list (not only at its end: a preload
+		// that loses track of positions after a missing register must not mix up the ones that follow)
 		for i := 0; i < 3; i++ {
-			ids = append(ids, RegID{1, uint64(1<<40 + i)}.SlabID())
+			at := r.Intn(len(ids) + 1)
+			ids = append(ids, atree.SlabID{})
+			copy(ids[at+1:], ids[at:])
+			ids[at] = RegID{1, uint64(1<<40 + i)}.SlabID()
 		}
 	}
 	return ids
